@@ -412,23 +412,27 @@ def rearmWith (s : St) (id t : Nat) : DelayQ × DelayQ.InsertRes × Bool → Exp
       .again (if woke then wakeDispatch { s with timers := q', inflight := s.inflight.map (rearmEntry id key t) }
               else { s with timers := q', inflight := s.inflight.map (rearmEntry id key t) })
 
-/-- The timer of tracked request `id` (entry `en`, `deadline_remainder ≠ 0`) fired; `q` is the queue after the poll.
-It is re-armed with (a clamped part of) the remainder. -/
-def rearm (s : St) (q : DelayQ) (now id : Nat) (en : Entry) : ExpStep :=
-  rearmWith s id (clampTimeout en.remainder) (q.insert now (clampTimeout en.remainder) id)
+/-- The timer of tracked request `id` (entry `en`) fired `late` ns ago and `rest = deadline_remainder - late` is
+nonzero; `q` is the queue after the poll.  The timer is re-armed with (a clamped part of) `rest`; the entry's
+remainder loses the lateness and the armed timeout (`rearmEntry … (late + timeout)`). -/
+def rearm (s : St) (q : DelayQ) (now id : Nat) (en : Entry) (late : Nat) : ExpStep :=
+  rearmWith s id (late + clampTimeout (en.remainder - late)) (q.insert now (clampTimeout (en.remainder - late)) id)
 
-/-- What one iteration of `poll_expired`'s loop does with the result of polling the `DelayQueue`. -/
+/-- What one iteration of `poll_expired`'s loop does with the result of polling the `DelayQueue`.
+`now - e.whenMs * nsPerMs` is `late`: how long ago the yielded timer was due (`Expired::deadline()` is the queue's
+own, ms-rounded-up deadline). -/
 def expireWith (s : St) (now : Nat) : DelayQ × DelayQ.PollRes → ExpStep
   | (q, .expired e) =>
       match findEntry s e.val with
       | some en =>
-          if en.remainder != 0 then rearm s q now e.val en
+          if en.remainder - (now - e.whenMs * nsPerMs) != 0 then rearm s q now e.val en (now - e.whenMs * nsPerMs)
           else .done (osSend { s with timers := q, inflight := s.inflight.filter (·.id != e.val) } en.cid .deadline) true
       | none => .done { s with timers := q } true
   | (q, _) => .done { s with timers := q } false
 
-/-- One iteration of `poll_expired`'s loop.  A timer that fires for a tracked request whose `deadline_remainder` is
-nonzero is re-armed (`rearm`) and the queue is polled again; otherwise the request is failed with `DeadlineExceeded`.
+/-- One iteration of `poll_expired`'s loop.  A timer that fires for a tracked request whose `deadline_remainder`
+exceeds the time by which the expiry is handled late is re-armed (`rearm`) and the queue is polled again; otherwise
+the request is failed with `DeadlineExceeded`.
 (`rearmWith` / `expireWith` take the queue operation's *result* as a parameter so that proofs can do their case
 analysis on a variable: a `match` whose discriminant is `DelayQ.insert …` itself makes Lean's kernel evaluate the
 timer wheel's range check on symbolic input.) -/
